@@ -743,12 +743,152 @@ def matrix_cells():
     return cells
 
 
+# ----------------------------------------------------------------------------------------
+# stream D, second part: the history of a variable and the signature of a function.
+# (i)  every way the static type of a variable comes about (redeclared in the same block,
+#      shadowed in an inner block, reassigned, a parameter hidden by a `make`, inside / after a
+#      loop or a branch, declared from another variable, uninitialised) x every type-sensitive
+#      use after it, both verdicts;
+# (ii) the result type of a call: literal returns (before and after the definition), no return,
+#      several returns (equal / different), returns only inside nested blocks, returns of nested
+#      functions (excluded), chains of calls in either order (the signatures of a block are a
+#      fixpoint), recursion, and a nested function that hides an outer one of another result
+#      type, defined directly in the body or in a then / else / loop / plain block of it.
+# Expected verdicts: a use is fine iff the type the documented rules give the variable / the
+# call at that point admits it (unknown => dynamic => accepted); computed here.
+
+VT = ["number", "string", "boolean", "array", "null"]
+
+
+def use_table():
+    bo = ("boolean", "null", DYN)
+    nu = ("number", DYN)
+    return [
+        ("cond", "if to say (%s) start end", bo, M_TYPE, lambda t: "Dis expression no be boolean"),
+        ("not", "shout(not %s)", bo, M_TYPE, lambda t: "Dis expression type no be boolean"),
+        ("and", "shout(%s and true)", bo, M_TYPE, lambda t: "Dis expression type no be boolean"),
+        ("minus", "shout(%s minus 1)", nu, M_TYPE, lambda t: "Dis expression type no be number"),
+        ("neg", "shout(minus %s)", nu, M_TYPE, lambda t: "Dis expression type no be number"),
+        ("less", "shout(%s small pass 1)", ("number", "null", DYN), M_TYPE, lambda t: "Dis expression type no be number, string, or boolean"),
+        ("index", "shout(%s[0])", ("array", DYN), M_TYPE, lambda t: "Dis expression type no be array"),
+        ("as-index", "shout([1, 2][%s])", nu, M_TYPE, lambda t: "Dis index type no be number"),
+        ("abs", "shout(%s.abs())", nu, M_UNDECL, lambda t: "Method `abs` no dey for %s type" % t),
+        ("upper", "shout(%s.to_uppercase())", ("string", DYN), M_UNDECL, lambda t: "Method `to_uppercase` no dey for %s type" % t),
+        ("pop", "shout(%s.pop())", ("array", DYN), M_UNDECL, lambda t: "Method `pop` no dey for %s type" % t),
+        ("join-arg", "shout([1].join(%s))", ("string", DYN), M_TYPE, lambda t: "Method `join` dey expect string but na %s dey here" % t),
+    ]
+
+
+def family_cells():
+    out = []
+    uses = use_table()
+
+    def emit(name, before, expr, t, after=(), only_valid=False, ind=""):
+        """one cell per use of `expr` (static type t) placed between `before` and `after`"""
+        for un, tmpl, okset, msg, lab in uses:
+            ok = t in okset
+            if only_valid and not ok:
+                continue
+            lines = list(before) + [ind + tmpl % expr] + list(after)
+            out.append({"name": "%s:%s" % (name, un), "lines": lines, "accept": ok,
+                        "message": None if ok else msg, "label": None if ok else lab(t), "plain": True})
+
+    L = LITERAL
+    # (i) histories of a variable @1
+    for a in VT:
+        for b in VT:
+            if a == b:
+                continue
+            A, B = L[a], L[b]
+            emit("history:redeclare:%s>%s" % (a, b), ["make @1 get " + A, "make @1 get " + B], "@1", b)
+            emit("history:redeclare3:%s>%s>%s" % (a, b, a), ["make @1 get " + A, "make @1 get " + B, "make @1 get " + A], "@1", a)
+            emit("history:inner-block:%s>%s" % (a, b), ["make @1 get " + A, "start", "  make @1 get " + B], "@1", b, ["end"], ind="  ")
+            emit("history:after-inner-block:%s>%s" % (a, b), ["make @1 get " + A, "start", "  make @1 get " + B, "end"], "@1", a)
+            emit("history:reassign:%s>%s" % (a, b), ["make @1 get " + A, "@1 get " + B], "@1", a)
+            emit("history:param-hidden:%s" % b, ["do @2(@1) start", "  make @1 get " + B], "@1", b, ["end"], ind="  ")
+            emit("history:loop-before:%s>%s" % (a, b), ["make @1 get " + A, "jasi (false) start"], "@1", a, ["  make @1 get " + B, "end"], ind="  ")
+            emit("history:loop-after-make:%s>%s" % (a, b), ["make @1 get " + A, "jasi (false) start", "  make @1 get " + B], "@1", b, ["end"], ind="  ")
+            emit("history:after-loop:%s>%s" % (a, b), ["make @1 get " + A, "jasi (false) start", "  make @1 get " + B, "end"], "@1", a)
+            emit("history:else-after-then:%s>%s" % (a, b), ["make @1 get " + A, "if to say (true) start", "  make @1 get " + B, "end", "if not so start"],
+                 "@1", a, ["end"], ind="  ")
+            emit("history:in-function:%s>%s" % (a, b), ["do @2() start", "  make @1 get " + A, "  make @1 get " + B], "@1", b, ["end"], ind="  ")
+            emit("history:from-variable:%s>%s" % (a, b), ["make @3 get " + B, "make @1 get " + A, "make @1 get @3"], "@1", b)
+            emit("history:inner-redeclare-twice:%s>%s" % (a, b), ["make @1 get " + A, "start", "  make @1 get " + A, "  make @1 get " + B], "@1", b, ["end"], ind="  ")
+    for a in VT:
+        A = L[a]
+        emit("history:param:%s" % a, ["do @2(@1) start"], "@1", DYN, ["end"], ind="  ")
+        emit("history:captured:%s" % a, ["make @1 get " + A, "do @2() start"], "@1", a, ["end"], ind="  ")
+        emit("history:uninitialised-after:%s" % a, ["make @1 get " + A, "make @1"], "@1", "null")
+        emit("history:element:%s" % a, ["make @1 get [%s]" % A], "@1[0]", DYN)
+
+    # (ii) signatures: the call @1(..) in a type-sensitive position
+    def fn(name, body):
+        return ["do %s() start" % name] + ["  " + x for x in body] + ["end"]
+
+    for t in VT:
+        T = L[t]
+        d = fn("@1", ["return " + T])
+        emit("signature:literal-after:%s" % t, d, "@1()", t)
+        emit("signature:literal-before:%s" % t, [], "@1()", t, d)
+        for place, wrap in (("if", ["if to say (true) start", "  return " + T, "end"]),
+                            ("else", ["if to say (false) start", "  shout(1)", "end", "if not so start", "  return " + T, "end"]),
+                            ("loop", ["jasi (true) start", "  return " + T, "end"]),
+                            ("block", ["start", "  start", "    return " + T, "  end", "end"])):
+            emit("signature:return-in-%s:%s" % (place, t), fn("@1", wrap), "@1()", t)
+        emit("signature:inner-function-return-excluded:%s" % t, fn("@1", fn("@2", ["return " + T])), "@1()", "null")
+        for u in VT:
+            U = L[u]
+            two = ["do @1(@2) start", "  if to say (@2) start return %s end" % T, "  return " + U, "end"]
+            emit("signature:two-returns:%s,%s" % (t, u), two, "@1(true)", t if t == u else DYN)
+        # chains: the signature of a block's functions is a fixpoint over the calls in their returns
+        for n in (2, 3, 4):
+            names = ["@%d" % k for k in range(1, n + 1)]
+            defs = [fn(names[k], ["return %s()" % names[k + 1]]) for k in range(n - 1)] + [fn(names[-1], ["return " + T])]
+            fwd = [x for dd in defs for x in dd]
+            bwd = [x for dd in reversed(defs) for x in dd]
+            emit("signature:chain%d-callers-first:%s" % (n, t), fwd, "@1()", t)
+            emit("signature:chain%d-callees-first:%s" % (n, t), bwd, "@1()", t)
+        emit("signature:return-parameter:%s" % t, ["do @1(@2) start", "  return @2", "end"], "@1(%s)" % T, DYN)
+        emit("signature:return-local:%s" % t, fn("@1", ["make @2 get " + T, "return @2"]), "@1()", DYN)
+        emit("signature:mutual:%s" % t, ["do @1(@3) start", "  if to say (@3 small pass 1) start return %s end" % T, "  return @2(@3 minus 1)", "end",
+                                        "do @2(@3) start", "  return @1(@3)", "end"], "@2(2)", t, only_valid=True)
+    emit("signature:no-return", fn("@1", ["shout(1)"]), "@1()", "null")
+    emit("signature:bare-return", fn("@1", ["if to say (true) start return end", "shout(1)"]), "@1()", "null")
+    emit("signature:recursive-number", ["do @1(@2) start", "  if to say (@2 small pass 1) start return 0 end", "  return @1(@2 minus 1) add 1", "end"],
+         "@1(2)", "number", only_valid=True)
+    # a nested function hides an outer one of another result type
+    for to in VT:
+        for ti in VT:
+            if to == ti:
+                continue
+            outer = fn("@2", ["return " + L[to]])
+            inner = fn("@2", ["return " + L[ti]])
+            for place, body in (
+                    ("body", inner + ["return @2()"]),
+                    ("then", ["if to say (true) start"] + ["  " + x for x in inner] + ["  return @2()", "end"]),
+                    ("else", ["if to say (false) start", "  shout(1)", "end", "if not so start"] + ["  " + x for x in inner] + ["  return @2()", "end"]),
+                    ("loop", ["jasi (true) start"] + ["  " + x for x in inner] + ["  return @2()", "end"]),
+                    ("block", ["start"] + ["  " + x for x in inner] + ["  return @2()", "end"]),
+                    ("block-in-else", ["if to say (false) start", "  shout(1)", "end", "if not so start", "  start"] +
+                     ["    " + x for x in inner] + ["    return @2()", "  end", "end"])):
+                # the call returns what the INNER function returns: every use that fits it is valid
+                emit("signature:hidden-by-nested-in-%s:%s/%s" % (place, to, ti), outer + fn("@1", body), "@1()", ti, only_valid=True)
+            # a function nested in ANOTHER nested function does not hide anything here
+            deep = fn("@3", inner)
+            emit("signature:not-hidden-by-deeper:%s/%s" % (to, ti), outer + fn("@1", deep + ["return @2()"]), "@1()", to)
+            # hidden only in the then-branch, called in the else-branch: the outer one is meant
+            split = ["if to say (false) start"] + ["  " + x for x in inner] + ["  shout(@2())", "end", "if not so start", "  return @2()", "end"]
+            emit("signature:hidden-in-other-branch:%s/%s" % (to, ti), outer + fn("@1", split), "@1()", to, only_valid=True)
+    return out
+
+
 _CELLS = []
 
 
 def cells():
     if not _CELLS:
         _CELLS.extend(matrix_cells())
+        _CELLS.extend(family_cells())
     return _CELLS
 
 
@@ -928,6 +1068,12 @@ def build_cases(env, n):
             e.update(message=c["message"], label=c["label"], allowed=set())
         cases.append({"id": "m%d" % i, "stream": "matrix", "kind": c["name"], "source": "\n".join(guarded(cell_lines(c, names, rng))) + "\n",
                       "expect": e})
+        if c.get("plain"):
+            # history / signature cells also at the top level (the root block's functions are pre-declared
+            # before anything is declared) — nothing is executed, so no guard is needed
+            names = set(BUILTINS) | set(KEYWORDS)
+            cases.append({"id": "t%d" % i, "stream": "matrix", "kind": c["name"] + "@top",
+                          "source": "\n".join(cell_lines(c, names, rng)) + "\n", "expect": dict(e)})
     stats["matrix_cells"] = len(cells())
     stats["matrix_accepting"] = sum(1 for c in cells() if c["accept"])
     stats["enriched_with"] = {}
